@@ -145,10 +145,10 @@ func run(c *lib.Ctx) {
 		"the blockchain module behind the queue answers every broadcast block (accept, or reject for the denied-peer probe) and holds a block for every height <= its current height",
 		"allocation sizes that merely exhaust the machine (several hundred MB per message) are not generated in bulk; a single 2^36-count light block per batch probes the unbounded allocation",
 		"data-race reports of the race children are counted, not deciding (the property is about crashes); checkptr faults and fatal errors kill the child and decide")
-	nPlain, nRace := c.N(24, 400), c.N(8, 60)
-	perPlain, perRace := 420, 160 // scenarios per batch
+	nPlain, nRace := c.N(16, 300), c.N(8, 60)
+	perPlain, perRace := 400, 120 // scenarios per batch
 	if !c.Quick() {
-		perPlain, perRace = 1200, 500
+		perPlain, perRace = 1500, 500
 	}
 	type job struct {
 		idx  int
@@ -236,8 +236,8 @@ func run(c *lib.Ctx) {
 			}
 			_, scen, _ := readLog(in.LogPath)
 			c.Violation(j.idx, "loop-dead:"+p.Name, map[string]any{"batch": in, "probe": p, "scenarios_executed": len(scen), "log_tail": tail(in.LogPath, 6)},
-				"batch %d: after %d hostile scenarios the well-formed probe %q was not processed within %v (%d tries; %s): the receive path / background loop behind it no longer works",
-				j.idx, len(scen), p.Name, probeBound, p.Tries, p.Detail)
+				"batch %d: after %d hostile scenarios the well-formed probe %q was not processed (%d tries over %d ms, bound %v; %s): the receive path / background loop behind it no longer works",
+				j.idx, len(scen), p.Name, p.Tries, p.Ms, probeBound, p.Detail)
 		}
 		cn := out.Counters
 		nontrivial := cn["inj_stream"] > 0 && cn["inj_pubsub"] > 0 && cn["inj_handler"] > 0 && cn["inj_download_reply"] > 0 && answered == len(out.Probes) && answered > 0
